@@ -71,7 +71,10 @@ def plan13(ctx):
         R = "High" if m["rate"] == "high" else "Low"
         enc = [e.replace("{R}", R) for e in RATE_ENC]
         # (3,3)-class configurations need > 15 min of SAT time for the 3-run additivity query: thorough tier only
-        q = (m["rate"], m["k"], m["r"]) in quick_cfg and min(m["k"], m["r"]) < 3
+        # SAT time of the 3-run additivity query is erratic (high (1,3) and low (3,3) exceed 30 min while
+        # (7,1) takes 2 min): the quick tier uses a measured allow-list, seed-chosen within it
+        fast = {("low", 1, 3), ("low", 1, 6), ("low", 1, 7), ("low", 2, 5), ("high", 3, 2), ("high", 5, 2), ("high", 6, 1), ("high", 7, 1)}
+        q = (m["rate"], m["k"], m["r"]) in fast and ((m["rate"], m["k"], m["r"]) in quick_cfg or (m["k"] + m["r"]) % 2 == ctx.seed % 2)
         hs.append(Harness(f"gen::c02g::{m['name']}", "C13",
                           f"real {R}RateEncoder<SpecEngine> ({m['k']},{m['r']}): enc(a) ^ enc(b) == enc(a^b) for fully symbolic a, b",
                           encodes=enc, bounds=f"2-byte shards, config ({m['k']},{m['r']}), unwind 66", timeout=3600, mem_gb=8,
